@@ -79,7 +79,9 @@ def outcome_key(o):
     if o.cls == "rust_panic":
         m = re.search(rb"panicked at ([^\s:]+):(\d+)", o.stderr)
         if m:
-            k = "rust_panic@%s:%s" % (m.group(1).decode("utf-8", "replace").split("/repo/")[-1], m.group(2).decode())
+            f = m.group(1).decode("utf-8", "replace").split("/repo/")[-1]
+            f = re.sub(r"^/rustc/[0-9a-f]+/library/", "rustlib/", f)
+            k = "rust_panic@%s:%s" % (f, m.group(2).decode())
     return k
 
 
@@ -274,11 +276,13 @@ def build_std_programs(ctx, nbatches, per_template, cases_per_program=50):
     good = gen.validate(tmpls, front_end_check(d), ctx.rng("std-validate"))
     good = backend_validate(ctx, gen, good, d)
     progs = gen.programs(good, ctx.rng("std-cases"), per_template, cases_per_program, max_cases=nbatches * cases_per_program)
-    pub = [s for s in cat.sigs if s.pub and not s.inherited]
+    pub = {s.ident() for s in cat.sigs if s.pub and not s.inherited}
+    inh = {s.ident() for s in cat.sigs if s.pub and s.inherited}
     covered = {t.sig.ident() for t in good}
     ctx.count("std_signatures_public", len(pub))
-    ctx.count("std_signatures_with_inherited_trait_defaults", sum(1 for s in cat.sigs if s.pub))
-    ctx.count("std_signatures_covered", len(covered))
+    ctx.count("std_signatures_public_covered", len(pub & covered))
+    ctx.count("std_trait_default_methods", len(inh))
+    ctx.count("std_trait_default_methods_covered", len(inh & covered))
     ctx.count("std_templates", len(good))
     reasons = collections.Counter()
     detail = []
@@ -298,9 +302,9 @@ def build_std_programs(ctx, nbatches, per_template, cases_per_program=50):
 
 
 def run_std(ctx, J, mc):
-    nb = int(ctx.opts.get("std_batches", ctx.pick(40, 320)))
-    per = int(ctx.opts.get("std_per_template", ctx.pick(3, 24)))
-    cat, gen, good, progs = build_std_programs(ctx, nb, per)
+    nb = int(ctx.opts.get("std_batches", ctx.pick(40, 300)))
+    per = int(ctx.opts.get("std_per_template", ctx.pick(3, 150)))
+    cat, gen, good, progs = build_std_programs(ctx, nb, per, cases_per_program=ctx.pick(50, 80))
     ctx.count("std_programs", len(progs))
     built, d = progrun.compile_all("c02std", [(p.name, p.source()) for p in progs])
     cwd = os.path.join(d, "cwd")
